@@ -9,6 +9,8 @@ import (
 
 	"grol.io/grol/ast"
 	"grol.io/grol/eval"
+	"grol.io/grol/repl"
+	"grol.io/grol/token"
 	"verif/internal/core"
 	"verif/internal/gen"
 	"verif/internal/obs"
@@ -356,11 +358,49 @@ func (m *c13Model) callHH(n int) string {
 	return "ERR"
 }
 
+// c13Driver: how the inputs reach the interpreter. 0: repl.EvalOne; 1: the repl.Grol Parse / Run API on one
+// persistent state; 2: repl.EvalOne with the exported token.ResetInterning() called between the inputs.
+var c13Driver int
+
 func c13SessRun(hist []int, noReg bool) []string {
 	x := newSess(sessCfg{noReg: noReg})
+	var g *repl.Grol
+	var gout strings.Builder
+	if c13Driver == 1 {
+		g = repl.New()
+		g.State.NoReg = noReg
+		g.State.Out, g.State.LogOut, g.State.NoLog = &gout, &gout, true
+	}
 	outs := make([]string, len(hist))
 	for k, i := range hist {
-		r := x.step(c13SessInputs[i].src)
+		var r stepRec
+		switch c13Driver {
+		case 1:
+			gout.Reset()
+			func() {
+				defer func() {
+					if rr := recover(); rr != nil {
+						r.panicked = true
+						r.errs = []string{fmt.Sprint(rr)}
+						g.State.Reset()
+						g.State.Out, g.State.LogOut = &gout, &gout
+					}
+				}()
+				if err := g.Parse([]byte(c13SessInputs[i].src)); err != nil {
+					r.errs = []string{err.Error()}
+					return
+				}
+				if err := g.Run(&gout); err != nil {
+					r.errs = []string{err.Error()}
+				}
+			}()
+			r.out = gout.String()
+		case 2:
+			token.ResetInterning()
+			r = x.step(c13SessInputs[i].src)
+		default:
+			r = x.step(c13SessInputs[i].src)
+		}
 		o := strings.TrimSpace(r.out)
 		if nl := strings.IndexByte(o, '\n'); nl >= 0 {
 			o = o[:nl] // the printed line; what follows is the shown value of the input
@@ -385,6 +425,9 @@ func c13SessCheck(hist []int) *core.Viol {
 		parts[k] = c13SessInputs[i].src
 	}
 	text := strings.Join(parts, " ;; ")
+	if c13Driver != 0 {
+		cs.Cfg = fmt.Sprint("driver=", c13Driver)
+	}
 	for _, noReg := range []bool{false, true} {
 		got := c13SessRun(hist, noReg)
 		m := &c13Model{}
@@ -442,6 +485,39 @@ func c13Session(c *core.Ctx, bounds *[]string) bool {
 		c.P.Transitions += int64(len(hist)) // inputs evaluated on the session
 		return true
 	})
+	// the same histories (one level less deep) through the other ways inputs reach the interpreter
+	for drv := 1; drv <= 2 && ok; drv++ {
+		c13Driver = drv
+		ok = enumTuples(len(c13SessInputs), depth-1, func(idx []int) bool {
+			if len(idx) == 0 {
+				return true
+			}
+			if c.P.Evals&0xff == 0 && c.Expired() {
+				return false
+			}
+			key := fmt.Sprintf("session-d%d|%s", drv, c20Ints(idx))
+			if !c.MineNoDedup("session", key) {
+				return true
+			}
+			hist := append([]int{}, idx...)
+			var v *core.Viol
+			if c13SessCheck(hist) != nil {
+				v = c.Run(func() *core.Viol { return c13SessCheck(hist) })
+			}
+			out := "session-exact"
+			if v != nil {
+				out = v.Class
+			}
+			c.Count("session: "+key, out, true)
+			c.P.Traces++
+			c.P.Transitions += int64(len(hist))
+			return true
+		})
+	}
+	c13Driver = 0
+	if ok {
+		*bounds = append(*bounds, fmt.Sprintf("the histories of <=%d inputs again through the repl.Grol Parse/Run API and through repl.EvalOne with token.ResetInterning() between inputs", depth-1))
+	}
 	if ok {
 		*bounds = append(*bounds, fmt.Sprintf("sessions: every history of <=%d inputs over %d (two definitions of one macro, a second macro, a function of the same name, uses at top level / nested in another macro's argument / through eval() / inside a function defined then / a macro defined and used inside one eval string): every use checked against a model of the macro table and against the same history without the earlier uses", depth, len(c13SessInputs)))
 	}
@@ -450,11 +526,11 @@ func c13Session(c *core.Ctx, bounds *[]string) bool {
 
 func c13Templates(maxSize int) []string {
 	cfg := gen.Cfg{
-		Leaves: []string{"unquote(x)", "unquote(y)", "1", "v"},
-		Prefix: []string{"-", "!"},
-		Infix:  []string{"+", "-", "*", "==", "&&", "=", ":"},
+		Leaves:   []string{"unquote(x)", "unquote(y)", "1", "v"},
+		Prefix:   []string{"-", "!"},
+		Infix:    []string{"+", "-", "*", "==", "&&", "=", ":"},
 		Builtins: []string{"len", "println"},
-		Stmts:  false, Rich: true,
+		Stmts:    false, Rich: true,
 	}
 	var out []string
 	seen := map[string]bool{}
@@ -634,9 +710,9 @@ func runC13(c *core.Ctx) {
 
 func init() {
 	core.Register(&core.Check{
-		ID:    "C13",
-		Level: "model_checking",
-		Rule: "macro definitions mm = macro(p..) { quote(T) } with T enumerated exhaustively as syntax trees over holes unquote(p), literals and identifiers; arguments from a 14-element set (literals, identifiers, operators binding looser than the template context, assignments, lambdas, side-effecting calls, i++, arrays, maps, a nested macro call, if, strings); call sites in 19 contexts incl. callee position and other macros' arguments; 1-2 uses; definition and uses in one input or split over the inputs of one session; 0..4 parameters each used 0..3 times. Reference: the harness substitutes the parenthesised argument text into its own rendering of the template. Oracle: canonical dump of State.ExpandMacros(parse(P)) equals the dump of parse(P_subst); expanding the uses a second time gives the same trees (definition unaltered); the expanded tree prints and re-parses to itself; repl.EvalOne of P and of P_subst give identical output, error presence and panic flag (so arguments are evaluated exactly as often and as late as in P_subst). Non-trivial = compared cases; distinct by definition+site+arguments.",
+		ID:          "C13",
+		Level:       "model_checking",
+		Rule:        "macro definitions mm = macro(p..) { quote(T) } with T enumerated exhaustively as syntax trees over holes unquote(p), literals and identifiers; arguments from a 14-element set (literals, identifiers, operators binding looser than the template context, assignments, lambdas, side-effecting calls, i++, arrays, maps, a nested macro call, if, strings); call sites in 19 contexts incl. callee position and other macros' arguments; 1-2 uses; definition and uses in one input or split over the inputs of one session; 0..4 parameters each used 0..3 times. Reference: the harness substitutes the parenthesised argument text into its own rendering of the template. Oracle: canonical dump of State.ExpandMacros(parse(P)) equals the dump of parse(P_subst); expanding the uses a second time gives the same trees (definition unaltered); the expanded tree prints and re-parses to itself; repl.EvalOne of P and of P_subst give identical output, error presence and panic flag (so arguments are evaluated exactly as often and as late as in P_subst). Non-trivial = compared cases; distinct by definition+site+arguments.",
 		Assume:      []string{"canonical dump of internal/obs; textual substitution with parenthesised arguments as the reference"},
 		QuickCap:    100 * time.Second,
 		ThoroughCap: 20 * time.Minute,
